@@ -272,12 +272,12 @@ func judgeC11(rep *core.Report, c *CaseResult) {
 					var idx int
 					fmt.Sscanf(o[1:], "%d", &idx)
 					if o[0] == 'd' && idx < len(m.DocLines) {
-						wantDoc = append(wantDoc, strings.TrimSpace(m.DocLines[idx]))
+						wantDoc = append(wantDoc, c11TrimDoc(m.DocLines[idx]))
 					}
 				}
 			} else {
 				for _, dl := range m.DocLines {
-					wantDoc = append(wantDoc, strings.TrimSpace(dl))
+					wantDoc = append(wantDoc, c11TrimDoc(dl))
 				}
 			}
 			var gotDoc []string
@@ -285,7 +285,7 @@ func judgeC11(rep *core.Report, c *CaseResult) {
 				if strings.TrimSpace(dl) == "//" {
 					continue // gofmt separates directive lines from prose with an empty comment line
 				}
-				gotDoc = append(gotDoc, strings.TrimSpace(dl))
+				gotDoc = append(gotDoc, c11TrimDoc(dl))
 			}
 			if strings.Join(wantDoc, "\n") != strings.Join(gotDoc, "\n") {
 				viol("function-doc-differs", map[string]string{"want_lines": fmt.Sprint(len(wantDoc)), "got_lines": fmt.Sprint(len(gotDoc))},
@@ -384,4 +384,14 @@ func corpusC11() []*scen.Scenario {
 	s.Ifaces = []*scen.Iface{{Name: "Convergen", Converter: true, Methods: []*scen.Method{m}}}
 	s.Feature("layout.vector", "corpus-doc-with-go-generate")
 	return []*scen.Scenario{s}
+}
+
+// c11TrimDoc strips the indentation of every line of a comment: gofmt re-indents the lines inside
+// a general comment with the declaration they stand on, the text of the lines is what is carried.
+func c11TrimDoc(c string) string {
+	ls := strings.Split(c, "\n")
+	for i := range ls {
+		ls[i] = strings.TrimSpace(ls[i])
+	}
+	return strings.Join(ls, "\n")
 }
